@@ -15,7 +15,10 @@
 //!             `client::Grpc::streaming` (role c: the request body the transport service receives) /
 //!             `server::Grpc::streaming` (role s: the body of the `http::Response`), configured
 //!             through `send_compressed` / `max_encoding_message_size` + `grpc-accept-encoding`,
-//!             the encoder coming from `Codec::encoder()`
+//!             the encoder coming from `Codec::encoder()`; the server is willing to send all three
+//!             encodings (the negotiated one is the request's choice); the client value is, depending
+//!             on the case (npolls mod 4), a CLONE of the configured one and / or has already made
+//!             another call
 //!       u     as v through `Grpc::unary` (either side; the schedule is one ready item; with the
 //!             per-response opt-out `d` the handler calls `Response::disable_compression`)
 //!   rdec <R<k>> <dec case>
@@ -272,6 +275,7 @@ impl<T, S: Stream<Item = Result<T, Status>> + Unpin> Stream for PlainSource<S> {
 }
 
 /// the transport under `client::Grpc`: keeps the request (head and body) it is called with
+#[derive(Clone)]
 struct Capture(Arc<Mutex<Option<http::Request<tonic::body::Body>>>>);
 impl tower_service::Service<http::Request<tonic::body::Body>> for Capture {
     type Response = http::Response<tonic::body::Body>;
@@ -349,16 +353,18 @@ fn first_item<T, S: Stream<Item = Result<T, Status>> + Unpin>(src: &mut S) -> T 
 }
 
 #[allow(clippy::too_many_arguments)]
-fn via_layers<C, S>(server: bool, unary: bool, comp: Option<CompressionEncoding>, disable: bool, max: Option<usize>, codec: C, mut src: S) -> Result<DynBody, String>
+fn via_layers<C, S>(server: bool, unary: bool, comp: Option<CompressionEncoding>, disable: bool, max: Option<usize>, codec: C, mut src: S, history: u8) -> Result<DynBody, String>
 where
-    C: Codec + Send + Sync + 'static,
+    C: Codec + Clone + Send + Sync + 'static,
     C::Encode: Send + Sync + 'static,
     C::Decode: Send + Sync + Default + 'static,
     S: Stream<Item = Result<C::Encode, Status>> + Send + Unpin + 'static,
 {
     if server {
+        // the server is willing to send every encoding (the negotiated one is not its first choice);
+        // which one is used is up to the request's `grpc-accept-encoding`
         let mut grpc = tonic::server::Grpc::new(codec);
-        if let Some(e) = comp {
+        for e in [CompressionEncoding::Zstd, CompressionEncoding::Gzip, CompressionEncoding::Deflate] {
             grpc = grpc.send_compressed(e);
         }
         if let Some(m) = max {
@@ -393,6 +399,16 @@ where
             grpc = grpc.max_encoding_message_size(m);
         }
         let path = http::uri::PathAndQuery::from_static("/s/m");
+        // histories: the configured client is cloned, and / or has already made another call
+        if history & 1 == 1 {
+            grpc = grpc.clone();
+        }
+        if history & 2 == 2 {
+            let c2 = codec.clone();
+            let _ = drive(grpc.streaming(tonic::Request::new(tokio_stream::empty::<C::Encode>()), http::uri::PathAndQuery::from_static("/s/other"), c2)).map_err(|e| e.to_string())?;
+            let first: Option<http::Request<tonic::body::Body>> = slot.lock().unwrap().take();
+            drop(first);
+        }
         if unary {
             let m = first_item(&mut src);
             let _ = drive(grpc.unary(tonic::Request::new(m), path, codec)).map_err(|e| e.to_string())?;
@@ -481,6 +497,7 @@ fn build_enc_body(flv: EFlavour, t: &[&str]) -> Result<DynBody, String> {
     let yield_thr: usize = t[4].parse().unwrap();
     let buf_size: usize = t[5].parse().unwrap();
     let max = opt_usize(t[6]);
+    let npolls: usize = t[7].parse().unwrap();
     let src = ScriptedSource { evs: parse_src(t), polls_after_end: 0 };
     let bs = BufferSettings::new(buf_size, yield_thr);
     let ovr = || if disable { tonic::codec::verif_disable_compression_override() } else { Default::default() };
@@ -493,7 +510,7 @@ fn build_enc_body(flv: EFlavour, t: &[&str]) -> Result<DynBody, String> {
             if !default_bs {
                 return Err("bad-case".into());
             }
-            via_layers(server, flv.via == 2, comp, disable, max, PC::default(), src)?
+            via_layers(server, flv.via == 2, comp, disable, max, PC::default(), src, (npolls % 4) as u8)?
         } else {
             // the three public ways to get the prost encoder
             let enc = if default_bs {
@@ -510,7 +527,7 @@ fn build_enc_body(flv: EFlavour, t: &[&str]) -> Result<DynBody, String> {
             }
         }
     } else if flv.via > 0 {
-        via_layers(server, flv.via == 2, comp, disable, max, XCodec { bs, style: flv.wstyle }, src)?
+        via_layers(server, flv.via == 2, comp, disable, max, XCodec { bs, style: flv.wstyle }, src, (npolls % 4) as u8)?
     } else {
         let enc = StyleEnc { bs, style: flv.wstyle };
         if server {
